@@ -116,6 +116,53 @@ def check_suffix(ck, prog):
     ck.floor("C19-SUF", 14)
 
 
+def _lin(n, sign=1):
+    """Linear form {term text: coefficient, '': constant} of a +/- expression."""
+    n = ex.strip(n)
+    out = {}
+    if n is None:
+        return out
+    if n.get("k") == "bin" and n["op"] in ("+", "-"):
+        for k_, v in _lin(n["l"], sign).items():
+            out[k_] = out.get(k_, 0) + v
+        for k_, v in _lin(n["r"], sign if n["op"] == "+" else -sign).items():
+            out[k_] = out.get(k_, 0) + v
+        return out
+    cv = ex.const_val(n)
+    if cv is not None:
+        return {"": sign * cv}
+    return {ex.show(n): sign}
+
+
+def check_suffix_boundary(ck, prog):
+    """test_suffix(): a name consists only of the suffix when the character *before* the suffix is a directory
+    separator (or there is none).  The index of that character is src_len - suffix_len - 1."""
+    ck.rule("C19-SUFPOS", "test_suffix examines the byte immediately before the suffix for a directory separator and "
+                          "compares exactly the last suffix_len bytes")
+    f = prog.fn("test_suffix", "suffix.c", target="xz")
+    ck.saw_function(f)
+    idx = []
+    for b in f.blocks.values():
+        for n in ([b.term["cond"]] if b.term and "cond" in b.term else []) + [e for e in b.elems if e is not None]:
+            for x in ex.walk(n, into_refs=False):
+                if x.get("k") == "idx" and ex.show(x["b"]) == "src_name":
+                    idx.append(x)
+    want = {"src_len": 1, "suffix_len": -1, "": -1}
+    got = [_lin(x["i"]) for x in idx]
+    got = [{k_: v for k_, v in g_.items() if v != 0} for g_ in got]
+    ok = bool(got) and all(g_ == want for g_ in got)
+    ck.ob("C19-SUFPOS", "separator-index", ok, common.where(f, idx[0]) if idx else common.where(f),
+          "test_suffix: src_name[src_len - suffix_len - 1] is the byte tested with is_dir_sep()" if ok else
+          "test_suffix(): the directory-separator test reads src_name[%s] instead of src_name[src_len - suffix_len - 1]: "
+          "names like dir/.xz (the suffix alone after a directory part) are misclassified" % (
+              ex.show(idx[0]["i"]) if idx else "?"), key="SUFPOS:separator-index")
+    cmpa = [c for b, i, e in f.iter_elems() for c in ex.calls(e, into_refs=True) if c.get("fn") in ("suffix_strcmp", "strcmp")]
+    okc = bool(cmpa) and all({k_: v for k_, v in _lin(c["args"][1]).items() if v != 0} ==
+                             {"src_name": 1, "src_len": 1, "suffix_len": -1} for c in cmpa)
+    ck.ob("C19-SUFPOS", "compare-window", okc, common.where(f),
+          "test_suffix compares src_name + src_len - suffix_len with the suffix", key="SUFPOS:compare-window")
+
+
 def check_src(ck, prog):
     ck.rule("C19-SRC", "io_open_src_real: O_NOFOLLOW unless --stdout/--force/--keep; success needs the "
             "file-type, setuid/setgid/sticky and hard-link refusals that apply to the option combination")
@@ -337,6 +384,7 @@ def run(ck):
                       "DOS/VMS branches (not compiled), O_EXCL/unlink rules are under C17-WHO.")
     prog = common.program(ck, ("xz",))
     check_suffix(ck, prog)
+    check_suffix_boundary(ck, prog)
     check_src(ck, prog)
     check_attr(ck, prog)
     check_keep(ck, prog)
